@@ -15,7 +15,7 @@ RULE = ('Hypothesis-generated metadata blocks: 1..6 (key,value) entries; keys fr
         'newline; then 0..4 update operations (existing key in another spelling, new key, NULL value) through the string, DString, '
         'one-shot engine and one long-lived engine. Oracle: reference model norm_key/norm_val for has_metadata+end offset, key '
         'listing, value lookup by any equivalent key spelling, read-back after update, other keys/body unchanged, and the values in '
-        'the complete HTML header. Non-trivial: >=2 keys with a value containing & : a multi-byte character or a continuation line, '
+        'the complete HTML header. Also: continuation lines that are whole HTML elements or (indented) key-shaped text, white space at the end of metadata lines, a one-space indent, opening fences of 1..7 dashes (below three the queries and the conversion only have to agree), a key-shaped line glued to the closing fence (it is body). Non-trivial: >=2 keys with a value containing & : a multi-byte character or a continuation line, '
         'or >=1 update; distinct by (source, ops).')
 ASSUMPTIONS = ['keys are ASCII (by the syntax); normalised keys are unique within a block',
                'documented precedences are respected by construction: first value not blank; a line scanning as a URL or as an '
